@@ -71,7 +71,7 @@ def symbolic_case(rng):
     pep = PEP()
     step = rng.choice(STEPS)
     diff = rng.random() < 0.5
-    fkind = rng.choice(["leaf", "leaf", "composite"])
+    fkind = rng.choice(["leaf", "leaf", "composite", "composite_weighted", "composite_null_term"])
     if diff:
         f = pep.declare_function(SmoothStronglyConvexFunction, mu=0.1, L=rng.choice([1.0, 3.0]))
     elif rng.random() < 0.5:
@@ -79,16 +79,26 @@ def symbolic_case(rng):
     else:
         f = pep.declare_function(ConvexLipschitzFunction, M=2.0)
     other = pep.declare_function(ConvexFunction)
+    g2 = None
     if fkind == "composite":
         g2 = pep.declare_function(SmoothConvexFunction, L=2.0)
         target = f + rng.choice([1.0, 2.0]) * g2
         in_decomp = {id(f), id(g2)}
+    elif fkind == "composite_weighted":
+        g2 = pep.declare_function(SmoothConvexFunction, L=2.0)
+        target = rng.choice([lambda: 3 * f + g2, lambda: f / 2 + 2 * g2, lambda: 0.5 * f + 0.25 * g2])()
+        in_decomp = {id(f), id(g2)}
+    elif fkind == "composite_null_term":
+        g2 = pep.declare_function(SmoothConvexFunction, L=2.0)
+        # a term whose weight is, or cancels to, zero: the composite is f alone
+        target = rng.choice([lambda: f + 0.0 * g2, lambda: f + g2 - g2, lambda: 2 * f + 0 * g2])()
+        in_decomp = {id(f)}
     else:
         target = f
         in_decomp = {id(f)}
     x00 = pep.set_initial_point()
     y00 = pep.set_initial_point()
-    startkind = rng.choice(["leaf", "combination", "evaluated", "alias_of_evaluated"])
+    startkind = rng.choice(["leaf", "combination", "evaluated", "alias_of_evaluated"] + (["terms_evaluated"] if g2 is not None else []))
     if startkind == "leaf":
         x0 = x00
     elif startkind == "combination":
@@ -96,6 +106,11 @@ def symbolic_case(rng):
     elif startkind == "evaluated":
         x0 = x00
         target.oracle(x0)
+    elif startkind == "terms_evaluated":
+        # every term of the composite already holds a sample at x0, the composite itself does not
+        x0 = x00
+        f.oracle(x0)
+        g2.oracle(x0)
     else:
         # the same point as an already evaluated leaf, written as a combination (x00 + 0*y00, (x00+y00)-y00, 2*x00/2)
         target.oracle(x00)
@@ -260,6 +275,36 @@ def symbolic_case(rng):
             F("step_adds_lmi:" + step, "%s added an LMI" % step)
     if pep.list_of_constraints or pep.list_of_psd:
         F("step_adds_problem_level_constraint:" + step, "%s added a constraint on the problem" % step)
+    # a sample recorded on a composite function IS the weighted sum of samples its terms hold at that point: what a step
+    # records on f1 + c f2 (null-weight terms dropped) must be tied to f1 and f2, not left free
+    if not target.get_is_leaf() and gamma != 0.0:
+        # (gamma = 0 is left out: the output point then IS the start, differentiable terms that already hold a sample there
+        #  need nothing, and the fresh gradient handed back is pinned to theirs by the class constraints, not by bookkeeping)
+        n_checks += 1
+        terms = [(fn_, float(w_)) for fn_, w_ in target.decomposition_dict.items() if w_ != 0]
+        for (tx, tg, tv) in target.list_of_points[before[id(target)][1]:]:
+            kx = pkey(P.of(tx))
+            ok_ = False
+            cands = []
+            for fn_, w_ in terms:
+                here = [t for t in fn_.list_of_points if pkey(P.of(t[0])) == kx]
+                cands.append((w_, here))
+            if all(h for _w, h in cands):
+                import itertools
+                for combo in itertools.islice(itertools.product(*[h for _w, h in cands]), 64):
+                    gs = None
+                    vs = None
+                    for (w_, _h), t in zip(cands, combo):
+                        gs = w_ * P.of(t[1]) if gs is None else gs + w_ * P.of(t[1])
+                        vs = w_ * E.of(t[2]) if vs is None else vs + w_ * E.of(t[2])
+                    if pkey(gs) == pkey(P.of(tg)) and vs.key("equality") == E.of(tv).key("equality"):
+                        ok_ = True
+                        break
+            if not ok_:
+                F("step_sample_on_composite_not_tied_to_its_terms:" + step,
+                  "%s recorded a sample on a composite function that is not the weighted sum of samples of its terms at that point "
+                  "(the step's output is then a free vector / value)" % step)
+                break
     return "|".join(sig), findings, n_checks
 
 
